@@ -279,16 +279,26 @@ func TestVerifC20(t *testing.T) {
 	cfg := vlib.GetConfig()
 	st := vlib.NewStats("C20")
 	defer st.Write(cfg, "C20")
-	procReplay := false
+	procReplay, editReplay := false, false
 	if cfg.Replay != "" {
-		if raw, err := vlib.LoadReplay(cfg.Replay); err == nil && bytes.Contains(raw, []byte(`"proc_lines"`)) {
-			procReplay = true
+		if raw, err := vlib.LoadReplay(cfg.Replay); err == nil {
+			procReplay = bytes.Contains(raw, []byte(`"proc_lines"`))
+			editReplay = bytes.Contains(raw, []byte(`"edit_keys"`))
 		}
 	}
-	if !procReplay {
+	if !procReplay && !editReplay {
 		vlib.DriveWith(t, vlib.Prop[c20Case]{ID: "C20", Gen: c20Gen, Run: c20Run}, cfg, st)
 	}
-	if st.Failed() || (cfg.Replay != "" && !procReplay) {
+	if st.Failed() || (cfg.Replay != "" && !procReplay && !editReplay) {
+		return
+	}
+	// statements corrected while typing (cursor keys, insertions)
+	if !procReplay {
+		ecfg := cfg
+		ecfg.Checks = cfg.Checks / 3
+		vlib.DriveWith(t, vlib.Prop[c20EditCase]{ID: "C20", Gen: c20EditGen, Run: c20EditRun}, ecfg, st)
+	}
+	if st.Failed() || editReplay {
 		return
 	}
 	// the console program itself, on a pseudo terminal: a few sessions per shard
